@@ -132,22 +132,24 @@ structure GbFeat where
   quals : List Qual
   deriving DecidableEq
 
-/-- `get_annotation` on the content lines of the FEATURES field: features whose location does not
-parse are skipped (warning); errors of the qualifier loop propagate. -/
+/-- the second loop of `get_annotation` for one (key, value) pair: a feature whose location does
+not parse is skipped (warning); errors of the qualifier loop propagate. -/
+def featStep (acc : List GbFeat) (kv : Str × Str) : Except Err (List GbFeat) :=
+  match featParts kv.2 with
+  | .error e => .error e
+  | .ok (loc, ps) =>
+    match parseLocs loc with
+    | none => .ok acc
+    | some locs =>
+      match partsGo [] none ps with
+      | .ok d => .ok (acc ++ [⟨kv.1, locs, d⟩])
+      | .error e => .error e
+
+/-- `get_annotation` on the content lines of the FEATURES field. -/
 def parseFeatures (lines : List Str) : Except Err (List GbFeat) :=
   match featCollect none lines with
   | .error e => .error e
-  | .ok kvs =>
-    kvs.foldlM (fun (acc : List GbFeat) kv =>
-      match featParts kv.2 with
-      | .error e => .error e
-      | .ok (loc, ps) =>
-        match parseLocs loc with
-        | none => .ok acc
-        | some locs =>
-          match partsGo [] none ps with
-          | .ok d => .ok (acc ++ [⟨kv.1, locs, d⟩])
-          | .error e => .error e) []
+  | .ok kvs => kvs.foldlM featStep []
 
 /-- `set_annotation` for features in the written order. -/
 def printFeatures (fs : List GbFeat) : List Str :=
